@@ -222,7 +222,7 @@ example : hierPrefix.isPrefixOf ("GEOTYPE ".toList ++ ['=', ' '] ++ ffs2c "it's"
 
 /-- **write_key accepts exactly** (repaired code incl. fixes/C16-5; constants and tables generated from the source):
     the key is not reserved (prefix table of `reservedFitsKeyword`), not empty, has no blank at either end, does not
-    start with `HIERARCH ` and is not END / HISTORY / CONTINUE / EXTNAME / HDUNAME; a key of at most 8 characters is made of upper-case
+    start with `HIERARCH ` and is not END / HISTORY / CONTINUE / EXTNAME / HDUNAME / PCOUNT / GCOUNT; a key of at most 8 characters is made of upper-case
     letters and digits and the value, every quote counted twice, has at most 68 characters; a longer key is
     printable ASCII without `=` and lower-case letters, has at most 66 characters, and key and value (quotes counted
     twice) together at most 67; the value is printable ASCII.  Everything else is rejected (`C16_reject_unchanged`).
@@ -232,7 +232,7 @@ theorem C16_validate_iff (key val : Str) :
       (¬ ∃ p ∈ C16.reservedPrefixes, p.1 <+: key) ∧
       (key ≠ [] ∧ key.head? ≠ some ' ' ∧ key.getLast? ≠ some ' ') ∧
       (hierPrefix.isPrefixOf key = false ∧ key ≠ endKey ∧ key ≠ historyKey ∧ key ≠ continueKey ∧
-        key ≠ extnameKey ∧ key ≠ hdunameKey) ∧
+        key ≠ extnameKey ∧ key ≠ hdunameKey ∧ key ≠ pcountKey ∧ key ≠ gcountKey) ∧
       (key.length ≤ 8 → Alnum key ∧ val.length + countQuotes val ≤ 68) ∧
       (9 ≤ key.length → ((∀ c ∈ key, printable c = true) ∧ '=' ∉ key ∧ ∀ c ∈ key, c.isLower = false) ∧
         key.length ≤ 66 ∧ key.length + (val.length + countQuotes val) ≤ 67) ∧
@@ -469,8 +469,14 @@ theorem C16_unstorable_rejected :
     (validate endKey ['v'] = some .reserved ∧ fitsTrip [(['B'], ['0']), (endKey, ['v']), (['A'], ['1'])] = some [(['B'], "0       ".toList)]) ∧
     (validate historyKey ['v'] = some .reserved ∧ fitsTrip [(historyKey, ['v'])] = some [(historyKey, [])]) ∧
     (validate continueKey ['v'] = some .reserved ∧ fitsTrip [(continueKey, ['v'])] = some [(continueKey, [])]) ∧
-    (validate ['A'] "\t12".toList = some .valueNonPrintable ∧ fitsTrip [(['A'], "\t12".toList)] = some [(['A'], " 12     ".toList)]) :=
+    (validate ['A'] "\t12".toList = some .valueNonPrintable ∧ fitsTrip [(['A'], "\t12".toList)] = some [(['A'], " 12     ".toList)]) ∧
+    -- PCOUNT / GCOUNT (found by the FITS-vocabulary key stream): with such a card in the primary header the real cfitsio
+    -- refuses the coefficient image (write_fits throws, or crashes inside fits_write_pix on a small table); the abstract
+    -- store of the model has no group structures, so only the rejection is stated here — the failing write is tied by
+    -- the harness (an accepted entry must survive the F operation)
+    (validate pcountKey ['1'] = some .reserved ∧ validate gcountKey ['1'] = some .reserved ∧
+      validate "PCOUNT1".toList ['1'] = none ∧ validate "A PCOUNT KEY".toList ['1'] = none) :=
   ⟨⟨by decide, by decide⟩, ⟨by decide, by decide⟩, ⟨by decide, by decide⟩, ⟨by decide, by decide⟩, ⟨by decide, by decide⟩,
-   ⟨by decide, by decide⟩, ⟨by decide, by decide⟩, ⟨by decide, by decide⟩⟩
+   ⟨by decide, by decide⟩, ⟨by decide, by decide⟩, ⟨by decide, by decide⟩, ⟨by decide, by decide, by decide, by decide⟩⟩
 
 end PsV
